@@ -1,4 +1,376 @@
 import OtelVerif.Model.C02
-/-! C02 property theorems (stub) -/
+import OtelVerif.Model.C02Pinned
+import OtelVerif.Model.C02Check
+import OtelVerif.Lemmas.C02
+/-!
+# C02 — sending queue: exactly-once hand-off, FIFO, bounded size, no lost wake-ups
+
+Every theorem quantifies over **all** schedules (`Reachable k s` = reached from the empty queue by any
+list of labels: any number of producers, consumers, completions, cancellations, a shutdown, in any
+interleaving), all capacities `0 ≤ cap`, both `block_on_overflow` and `wait_for_result` settings, and all
+request sizes (`Int`: zero, negative and larger-than-capacity sizes included).  The model
+(`Model/C02.lean`) mirrors `memory_queue.go` and the repaired `cond.go`; the invariants are in
+`Lemmas/C02.lean`.
+-/
 namespace OtelVerif.C02
+
+variable {k : Cfg} {s : St}
+
+/-! ## hand-off: FIFO and exactly once -/
+
+/-- pop order = push order: everything handed over so far, followed by what is still queued, is the
+acceptance sequence.  With a single consumer `handed` is that consumer's hand-off order. -/
+theorem C02_fifo (hk : 0 ≤ k.cap) (hr : Reachable k s) : s.handed ++ s.items.map Prod.fst = s.accepted :=
+  (Inv.reachable hk hr).H.fifo
+
+/-- every accepted request is handed over at most once and is either handed or still queued; a refused
+request is never handed (nor queued) -/
+theorem C02_exactly_once (hk : 0 ≤ k.cap) (hr : Reachable k s) :
+    s.handed.Nodup ∧ s.accepted.Nodup ∧
+    (∀ id, id ∈ s.accepted ↔ (id ∈ s.handed ∨ id ∈ s.items.map Prod.fst)) ∧
+    (∀ id ∈ s.handed, id ∉ s.items.map Prod.fst) ∧
+    (∀ id ∈ s.refused, id ∉ s.handed ∧ id ∉ s.items.map Prod.fst) := by
+  have h := (Inv.reachable hk hr).H
+  have hnd := h.accNodup
+  rw [← h.fifo] at hnd
+  refine ⟨h.handed_nodup, h.accNodup, ?_, ?_, ?_⟩
+  · intro id; rw [← h.fifo]; simp
+  · intro id hid hq
+    exact (List.nodup_append.mp hnd).2.2 id hid id hq rfl
+  · intro id hid
+    have := h.refAcc id hid
+    rw [← h.fifo] at this
+    simpa using this
+
+/-- a zero-sized request is answered `nil` without touching the queue, and nothing of size ≤ 0 is ever queued
+or handed over -/
+theorem C02_zero_size_ignored (hk : 0 ≤ k.cap) (hr : Reachable k s) :
+    (∀ p s', fire k s (.offer p 0) = some s' →
+      s'.accepted = s.accepted ∧ s'.items = s.items ∧ s'.size = s.size ∧ (s'.ps p).ph = .done .ok) ∧
+    (∀ x ∈ s.items ++ s.inflight, 0 < x.2) := by
+  have h := (Inv.reachable hk hr).Z
+  constructor
+  · intro p s' hf
+    simp only [fire] at hf
+    split at hf
+    · simp at hf; subst hf; simp [setP]
+    · cases hf
+  · intro x hx
+    rcases List.mem_append.mp hx with a | a
+    · exact h.posI x a
+    · exact h.posF x a
+
+/-! ## size -/
+
+/-- the reported size is exactly the summed size of the accepted-but-unfinished requests (those queued or
+handed over and not completed), is never negative and never exceeds the capacity -/
+theorem C02_size (hk : 0 ≤ k.cap) (hr : Reachable k s) :
+    s.size = sumSz (s.items ++ s.inflight) ∧ 0 ≤ s.size ∧ s.size ≤ k.cap ∧
+    ((s.items ++ s.inflight).map Prod.fst).Nodup ∧
+    (∀ id, id ∈ (s.items ++ s.inflight).map Prod.fst ↔ (id ∈ s.accepted ∧ id ∉ s.finished)) := by
+  have hI := Inv.reachable hk hr
+  have h := hI.Z
+  have hH := hI.H
+  have hnd := hH.accNodup
+  rw [← hH.fifo] at hnd
+  have hfn := (h.hperm.nodup_iff).mp hH.handed_nodup
+  have hmem : ∀ id, id ∈ s.handed ↔ (id ∈ s.finished ∨ id ∈ s.inflight.map Prod.fst) := by
+    intro id; rw [h.hperm.mem_iff]; simp
+  refine ⟨by rw [sumSz_append]; exact h.sizeEq, h.size_nonneg, h.le, ?_, ?_⟩
+  · rw [List.map_append]
+    refine List.nodup_append.mpr ⟨(List.nodup_append.mp hnd).2.1, (List.nodup_append.mp hfn).2.1, ?_⟩
+    intro a ha b hb e
+    subst e
+    exact (List.nodup_append.mp hnd).2.2 a ((hmem a).mpr (Or.inr hb)) a ha rfl
+  · intro id
+    rw [List.map_append, List.mem_append, ← hH.fifo, List.mem_append]
+    constructor
+    · rintro (a | a)
+      · refine ⟨Or.inr a, fun hf => ?_⟩
+        exact (List.nodup_append.mp hnd).2.2 id ((hmem id).mpr (Or.inl hf)) id a rfl
+      · refine ⟨Or.inl ((hmem id).mpr (Or.inr a)), fun hf => ?_⟩
+        exact (List.nodup_append.mp hfn).2.2 id hf id a rfl
+    · rintro ⟨a | a, hnf⟩
+      · rcases (hmem id).mp a with b | b
+        · exact absurd b hnf
+        · exact Or.inr b
+      · exact Or.inl a
+
+/-- the size is zero once every accepted request has finished -/
+theorem C02_size_zero_when_all_finished (hk : 0 ≤ k.cap) (hr : Reachable k s)
+    (hall : ∀ id ∈ s.accepted, id ∈ s.finished) : s.size = 0 := by
+  obtain ⟨h1, _, _, _, h5⟩ := C02_size hk hr
+  have : s.items ++ s.inflight = [] := by
+    cases hl : s.items ++ s.inflight with
+    | nil => rfl
+    | cons x xs =>
+      have := (h5 x.1).mp (by rw [hl]; simp)
+      exact absurd (hall _ this.1) this.2
+  rw [h1, this]; rfl
+
+/-- an enqueue is refused with "queue is full" exactly when the reported size plus the request's size
+exceeds the capacity (and the queue does not block); it is accepted at once exactly when it fits; the
+other two refusals are exactly the size guards -/
+theorem C02_refusal_exact (hk : 0 ≤ k.cap) (hr : Reachable k s) (p : Nat) (el : Int) (s' : St)
+    (hf : fire k s (.offer p el) = some s') :
+    ((s'.ps p).ph = .done .full ↔ (k.block = false ∧ 0 < el ∧ el ≤ k.cap ∧ s.size + el > k.cap)) ∧
+    (p ∈ s'.accepted ↔ (0 < el ∧ el ≤ k.cap ∧ s.size + el ≤ k.cap)) ∧
+    ((s'.ps p).ph = .sel ↔ (k.block = true ∧ 0 < el ∧ el ≤ k.cap ∧ s.size + el > k.cap)) ∧
+    ((s'.ps p).ph = .done .invalid ↔ el < 0) ∧ ((s'.ps p).ph = .done .tooLarge ↔ (0 < el ∧ el > k.cap)) := by
+  have hH := (Inv.reachable hk hr).H
+  simp only [fire] at hf
+  split at hf
+  · rename_i hidle
+    have hna : p ∉ s.accepted := (hH.open_not_acc (hidle ▸ Ph.open_idle)).1
+    split at hf
+    · rename_i h0; cases hf; subst h0
+      simp [setP, hna]
+    · rename_i h0
+      split at hf
+      · rename_i h1; cases hf
+        simp only [refuse, upd_same]
+        refine ⟨by simp; omega, by simp [hna]; omega, by simp; intros; omega, by simp; omega, by simp; omega⟩
+      · rename_i h1
+        split at hf
+        · rename_i h2; cases hf
+          simp only [refuse, upd_same]
+          refine ⟨by simp; omega, by simp [hna]; omega, by simp; intros; omega, by simp; omega, by simp; omega⟩
+        · rename_i h2; cases hf
+          unfold tryAdd
+          split
+          · rename_i h3
+            split
+            · rename_i hb
+              simp only [register, upd_same]
+              refine ⟨by simp [hb], by simp [hna]; omega, by simp [hb]; omega, by simp; omega, by simp; omega⟩
+            · rename_i hb
+              simp only [refuse, upd_same]
+              refine ⟨by simp [hb]; omega, by simp [hna]; omega, by simp [hb], by simp; omega, by simp; omega⟩
+          · rename_i h3
+            simp only [accept, upd_same]
+            cases hw : k.wfr <;> simp <;> omega
+  · cases hf
+
+/-! ## wait_for_result -/
+
+/-- a producer that used wait_for_result and got a result got exactly the outcome of its own request (the
+only `OnDone` of that id); otherwise it returned its context's error (`Res.ctxErr`) -/
+theorem C02_result_routing (hk : 0 ≤ k.cap) (hr : Reachable k s) (p e : Nat) (hp : (s.ps p).ph = .done (.result e)) :
+    (p, e) ∈ s.outcomes ∧ ∀ e', (p, e') ∈ s.outcomes → e' = e := by
+  have hR := InvR.reachable hr
+  have hI := Inv.reachable hk hr
+  have hfn := (List.nodup_append.mp ((hI.Z.hperm.nodup_iff).mp hI.H.handed_nodup)).1
+  rw [← hR.outFin] at hfn
+  exact ⟨hR.routed p e hp, fun e' h' => keys_nodup_functional _ hfn p e' e h' (hR.routed p e hp)⟩
+
+/-! ## the condition variable -/
+
+/-- a goroutine inside `cond.Wait` is registered exactly when it has not been signalled; the list has no
+duplicates; whoever left the select through its channel was signalled -/
+theorem C02_cond_inv (hk : 0 ≤ k.cap) (hr : Reachable k s) :
+    (∀ p, p ∈ s.waiters ↔ (((s.ps p).ph = .sel ∨ (s.ps p).ph = .wokenCtx) ∧ (s.ps p).sig = false)) ∧
+    s.waiters.Nodup ∧ (∀ p, (s.ps p).sig = true → (s.ps p).ph.inCond) ∧ (∀ p, (s.ps p).ph = .wokenTok → (s.ps p).sig = true) ∧
+    (∀ p, (s.ps p).ph.inCond → 0 < (s.ps p).el ∧ (s.ps p).el ≤ k.cap ∧ k.block = true) :=
+  let h := (Inv.reachable hk hr).C
+  ⟨h.wIff, h.wNodup, h.sigPh, h.tokSig, h.elOk⟩
+
+/-- `cond.go` on its own (any client, any interleaving of Wait / Signal / Broadcast / cancellations — the model
+the scheduler-controlled cond harness is diffed against): registered ⇔ inside Wait and not signalled; nobody
+returns `nil` without having been signalled; a closed channel always belongs to a goroutine still inside Wait -/
+theorem C02_cond_alone_inv (ls : List CLabel) (s : CSt) (hr : crun {} ls = some s) :
+    (∀ i, i ∈ s.waiters ↔ (((s.ws i).ph = .sel ∨ (s.ws i).ph = .wokenCtx) ∧ (s.ws i).sig = false)) ∧
+    s.waiters.Nodup ∧ (∀ i, (s.ws i).sig = true → (s.ws i).ph.inCond) ∧ (∀ i, (s.ws i).ph = .wokenTok → (s.ws i).sig = true) :=
+  let h := InvA.run ls InvA.init hr
+  ⟨h.wIff, h.wNodup, h.sigPh, h.tokSig⟩
+
+/-- in the repaired cond every step after the select is enabled unconditionally: `Signal`, `Broadcast` and both
+re-lock branches never wait for anything (contrast `C02_pinned_cond_deadlock`) -/
+theorem C02_cond_alone_never_blocks (s : CSt) :
+    (cfire s .signal).isSome = true ∧ (cfire s .broadcast).isSome = true ∧
+    (∀ i, (s.ws i).ph = .wokenTok → (cfire s (.relockTok i)).isSome = true) ∧
+    (∀ i, (s.ws i).ph = .wokenCtx → (cfire s (.relockCtx i)).isSome = true) := by
+  refine ⟨rfl, rfl, ?_, ?_⟩ <;> intro i hi <;> simp [cfire, hi]
+
+/-- no goroutine can take a step of its own -/
+def Quiescent (k : Cfg) (s : St) : Prop := ∀ l, l.internal = true → fire k s l = none
+
+/-- no lost wake-up: when everything has come to rest and the queue is empty, no producer is inside
+`cond.Wait` — for every schedule, including those in which contexts end while signals are in flight -/
+theorem C02_no_lost_wakeup (hk : 0 ≤ k.cap) (hr : Reachable k s) (hq : Quiescent k s) (hz : s.size = 0) :
+    ∀ p, ¬ (s.ps p).ph.inCond := by
+  have hI := Inv.reachable hk hr
+  -- at rest nobody has an unconsumed signal, nobody is between the select and the lock
+  have hnoTok : ∀ q, (s.ps q).ph ≠ .wokenTok := by
+    intro q hq'
+    have := hq (.relockTok q) rfl
+    simp [fire, hq'] at this
+  have hnoCtx : ∀ q, (s.ps q).ph ≠ .wokenCtx := by
+    intro q hq'
+    have := hq (.relockCtx q) rfl
+    simp [fire, hq'] at this
+  have hnoSig : ∀ q, (s.ps q).sig = false := by
+    intro q
+    cases hs : (s.ps q).sig with
+    | false => rfl
+    | true =>
+      rcases hI.C.sigPh q hs with a | a | a
+      · have := hq (.wakeTok q) rfl
+        simp [fire, a, hs] at this
+      · exact absurd a (hnoTok q)
+      · exact absurd a (hnoCtx q)
+  intro p hp
+  rcases hp with a | a | a
+  · have hw : p ∈ s.waiters := (hI.C.wIff p).mpr ⟨Or.inl a, hnoSig p⟩
+    rcases hI.W (List.ne_nil_of_mem hw) with b | ⟨q, b⟩
+    · omega
+    · rw [hnoSig q] at b; cases b
+  · exact hnoTok p a
+  · exact hnoCtx p a
+
+/-- in particular: once every accepted request has finished, a resting queue has no blocked producer -/
+theorem C02_released_when_all_finished (hk : 0 ≤ k.cap) (hr : Reachable k s) (hq : Quiescent k s)
+    (hall : ∀ id ∈ s.accepted, id ∈ s.finished) : ∀ p, ¬ (s.ps p).ph.inCond :=
+  C02_no_lost_wakeup hk hr hq (C02_size_zero_when_all_finished hk hr hall)
+
+/-- why a goroutine that is in the middle of `Offer` may be standing still -/
+def LegitWait (s : St) (p : Nat) : Prop :=
+  ((s.ps p).ph = .sel ∧ p ∈ s.waiters ∧ (s.ps p).canc = false) ∨          -- registered, will be closed by a later Signal
+  ((s.ps p).ph = .waitRes ∧ (s.ps p).canc = false ∧ s.results.lookup p = none)   -- its request has not finished
+
+/-- stuck-freedom (what can be said without a fairness assumption): in every reachable state every
+producer that is inside `Offer` either can take a step of its own — in particular the re-lock steps after
+the select are always enabled, no critical section of the repaired code waits for anything — or waits for a
+legitimate reason; a consumer parked in `Read` can move as soon as there is an item or the queue stopped;
+a ended context always releases its producer -/
+theorem C02_deadlock_free_partial (hk : 0 ≤ k.cap) (hr : Reachable k s) :
+    (∀ p, (s.ps p).ph = .idle ∨ (∃ r, (s.ps p).ph = .done r) ∨ LegitWait s p ∨
+      ∃ l, l.internal = true ∧ (fire k s l).isSome = true) ∧
+    (∀ p, (s.ps p).ph.inCond ∨ (s.ps p).ph = .waitRes → (s.ps p).canc = true →
+      ∃ l, l.internal = true ∧ (fire k s l).isSome = true) ∧
+    (∀ c ∈ s.cwait, (s.items = [] ∧ s.stopped = false) ∨ (fire k s (.recheck c)).isSome = true) := by
+  have hI := Inv.reachable hk hr
+  have hprog : ∀ p, (s.ps p).ph.inCond ∨ (s.ps p).ph = .waitRes →
+      (((s.ps p).ph = .sel ∧ p ∈ s.waiters) ∨ ((s.ps p).ph = .waitRes ∧ s.results.lookup p = none)) ∧ (s.ps p).canc = false ∨
+      ∃ l, l.internal = true ∧ (fire k s l).isSome = true := by
+    intro p hp
+    rcases hp with (a | a | a) | a
+    · cases hc : (s.ps p).canc with
+      | true => exact Or.inr ⟨.wakeCtx p, rfl, by simp [fire, a, hc]⟩
+      | false =>
+        cases hs : (s.ps p).sig with
+        | true => exact Or.inr ⟨.wakeTok p, rfl, by simp [fire, a, hs]⟩
+        | false => exact Or.inl ⟨Or.inl ⟨a, (hI.C.wIff p).mpr ⟨Or.inl a, hs⟩⟩, rfl⟩
+    · exact Or.inr ⟨.relockTok p, rfl, by simp [fire, a]⟩
+    · exact Or.inr ⟨.relockCtx p, rfl, by simp [fire, a]⟩
+    · cases hc : (s.ps p).canc with
+      | true => exact Or.inr ⟨.resCtx p, rfl, by simp [fire, a, hc]⟩
+      | false =>
+        cases hl : s.results.lookup p with
+        | some e => exact Or.inr ⟨.getRes p, rfl, by simp [fire, a, hl]⟩
+        | none => exact Or.inl ⟨Or.inr ⟨a, rfl⟩, rfl⟩
+  refine ⟨?_, ?_, ?_⟩
+  · intro p
+    cases hph : (s.ps p).ph with
+    | idle => exact Or.inl rfl
+    | done r => exact Or.inr (Or.inl ⟨r, rfl⟩)
+    | sel =>
+      rcases hprog p (Or.inl (Or.inl hph)) with ⟨a | a, c⟩ | b
+      · exact Or.inr (Or.inr (Or.inl (Or.inl ⟨hph, a.2, c⟩)))
+      · rw [hph] at a; simp at a
+      · exact Or.inr (Or.inr (Or.inr b))
+    | wokenTok =>
+      rcases hprog p (Or.inl (Or.inr (Or.inl hph))) with ⟨a | a, _⟩ | b
+      · rw [hph] at a; simp at a
+      · rw [hph] at a; simp at a
+      · exact Or.inr (Or.inr (Or.inr b))
+    | wokenCtx =>
+      rcases hprog p (Or.inl (Or.inr (Or.inr hph))) with ⟨a | a, _⟩ | b
+      · rw [hph] at a; simp at a
+      · rw [hph] at a; simp at a
+      · exact Or.inr (Or.inr (Or.inr b))
+    | waitRes =>
+      rcases hprog p (Or.inr hph) with ⟨a | a, c⟩ | b
+      · rw [hph] at a; simp at a
+      · exact Or.inr (Or.inr (Or.inl (Or.inr ⟨hph, c, a.2⟩)))
+      · exact Or.inr (Or.inr (Or.inr b))
+  · intro p hp hc
+    rcases hprog p hp with ⟨_, c⟩ | b
+    · rw [hc] at c; cases c
+    · exact b
+  · intro c hc
+    cases hi : s.items with
+    | nil =>
+      cases hst : s.stopped with
+      | false => exact Or.inl ⟨rfl, rfl⟩
+      | true => right; simp [fire, hc, pop, hi, hst]
+    | cons x t => right; obtain ⟨a, b⟩ := x; simp [fire, hc, pop, hi]
+
+/-- the full liveness statement has two more ingredients that are NOT proved here: (1) the goroutines' own
+activity always comes to rest (no infinite run of internal labels — stated below; needs a ranking function
+over phases and pending signals), and (2) a fairness assumption on the Go scheduler / `sync.Mutex` under which
+"some step of p is enabled" implies "p eventually takes it" (not modelled at all).  With (1) and (2),
+`C02_deadlock_free_partial` + `C02_no_lost_wakeup` give: every blocked producer is eventually released or
+legitimately waits behind a non-empty queue. -/
+def C02_deadlock_free_full : Prop :=
+  ∀ (k : Cfg) (s : St), 0 ≤ k.cap → Reachable k s →
+    ∃ n, ∀ ls, (∀ l ∈ ls, Label.internal l = true) → (runSched k s ls).isSome = true → ls.length ≤ n
+
+/-! ## the pinned cond.go (before the fix commit) deadlocks -/
+
+/-- two waiters whose contexts ended and that queue for the lock, two `Signal`s in a row: the second
+`Signal` blocks on the full channel while holding the lock — no label at all is enabled any more, four
+goroutines are mid-operation.  Same schedule as corpus case 0 of the cond harness. -/
+theorem C02_pinned_cond_deadlock :
+    ∃ s, Pinned.run (Pinned.init 2 2) Pinned.witness = some s ∧ Pinned.stuck s = true := by
+  refine ⟨_, rfl, ?_⟩
+  decide
+
+/-! ## soundness of the search oracle's FIFO / exactly-once core -/
+
+theorem fifoStep_sound (q h q' a : List Nat) (hs : Check.fifoStep q h q' = some a) : q ++ a = h ++ q' := by
+  unfold Check.fifoStep at hs
+  simp only [] at hs
+  split at hs
+  · rename_i hp
+    cases hs
+    exact List.prefix_iff_eq_append.mp (List.isPrefixOf_iff_prefix.mp hp)
+  · cases hs
+
+/-- if the oracle accepts a recorded trace of (ids handed in the step, queue after the step), then on that
+trace "handed so far ++ queue = pushed so far" holds at the end: hand-off order is push order and nothing
+is handed twice or skipped -/
+theorem C02_check_fifo_sound (tr : List (List Nat × List Nat)) (acc handed q acc' handed' q' : List Nat)
+    (h0 : handed ++ q = acc) (hrun : Check.fifoRun (acc, handed, q) tr = some (acc', handed', q')) :
+    handed' ++ q' = acc' := by
+  induction tr generalizing acc handed q with
+  | nil => simp [Check.fifoRun] at hrun; obtain ⟨rfl, rfl, rfl⟩ := hrun; exact h0
+  | cons x rest ih =>
+    obtain ⟨h, qn⟩ := x
+    simp only [Check.fifoRun] at hrun
+    split at hrun
+    · rename_i a ha
+      refine ih (acc ++ a) (handed ++ h) qn ?_ hrun
+      rw [← h0]; simp only [List.append_assoc]; rw [fifoStep_sound _ _ _ _ ha]
+    · cases hrun
+
+/-! ## non-vacuity: concrete schedules -/
+
+def k2 : Cfg := { cap := 2, block := true, wfr := false }
+
+/-- capacity 2: producer 0 (size 2) is accepted, producers 1 and 2 (size 1, 2) block; consumer takes 0;
+producer 1's context ends while the completion's signal is already addressed to it; it forwards the
+signal, producer 2 is released and accepted: nobody is left in the cond -/
+def demo : List Label :=
+  [.offer 0 2, .offer 1 1, .offer 2 2, .read 7, .complete 0 0, .cancel 1, .wakeCtx 1, .relockCtx 1, .wakeTok 2, .relockTok 2]
+
+example : (runSched k2 {} demo).map (fun s => (s.size, s.accepted, s.refused, s.handed, s.waiters, (s.ps 2).ph)) =
+    some (2, [0, 2], [1], [0], [], .done .ok) := by rfl
+
+/-- a reachable state in which a producer is legitimately blocked (hypotheses of the theorems are met by
+non-trivial states) -/
+example : (runSched k2 {} [.offer 0 2, .offer 1 1]).map (fun s => (s.waiters, (s.ps 1).ph, s.size)) =
+    some ([1], .sel, 2) := by rfl
+
+example : Check.fifoRun ([], [], []) [([], [0]), ([], [0, 1]), ([0], [1]), ([1], [2])] = some ([0, 1, 2], [0, 1], [2]) := by decide
+
 end OtelVerif.C02
